@@ -188,6 +188,20 @@ def run(ctx, rep: Report, deep: bool = False):
                     oracle_combine(rep, lst, groups)
                     fam += 1
     rep.feat("same_stem_families", fam)
+    # S193: names that end in L / R with NOTHING between the stem and the letter are not halves of a pair
+    glued = 0
+    for stem in ("TOM", "BEL", "A", "TOM1", "CAR", "X-", "HAL "):
+        for extra in ((), ("PAD L", "PAD R"), (stem.strip() or "S",)):
+            for order in (0, 1):
+                lst = [stem.rstrip(" -") + "L", stem.rstrip(" -") + "R"] if stem[-1] in " -" else [stem + "L", stem + "R"]
+                lst = (lst if order == 0 else lst[::-1]) + list(extra)
+                if len(set(lst)) < len(lst):
+                    continue
+                groups = FN.combine_real(lst)
+                cases.append(Case("names combine " + " ".join(FN.hxs(x) for x in lst), FN.combine_str(lst)))
+                oracle_combine(rep, lst, groups)
+                glued += 1
+    rep.feat("glued_side_letters", glued)
     # duplicate input names (cannot happen after C06; model/impl correspondence only)
     for lst in [("A L", "A L", "A R"), ("A", "A"), ("A L", "A R", "A R")]:
         cases.append(Case("names combine " + " ".join(FN.hxs(x) for x in lst), FN.combine_str(lst)))
@@ -195,7 +209,7 @@ def run(ctx, rep: Report, deep: bool = False):
     if ctx.model_available:
         compare_family(rep, "names-stereo", cases, nontrivial=lambda c: "4c" in c.op or "52" in c.op, exhaustive=True)
     rep.exhaustive = True
-    rep.required_features = ["stereo_regex_exhaustive", "combine_lists_exhaustive", "lists_with_pairs", "combine_lists_random", "same_stem_families"]
+    rep.required_features = ["stereo_regex_exhaustive", "combine_lists_exhaustive", "lists_with_pairs", "combine_lists_random", "same_stem_families", "glued_side_letters"]
 
 
 def search(ctx, rep: Report):
